@@ -25,6 +25,9 @@ func init() { Register("C19", checkC19) }
 // c19ExcludedLoop: the PRBS retry loop (the loop that draws from prbs23 until the value falls below the column count),
 // wherever it lives: its termination is a numerical property of the generator (declined in DESIGN §3 C19).
 func c19ExcludedLoop(lp guards.LoopRes) string {
+	if lp.RetryRem {
+		return "termination of the pseudo-random re-draw loop (r = generator() % n until r < m) is a numerical property of the generator (declined in DESIGN §3 C19)"
+	}
 	for _, n := range lp.Calls {
 		if n == "prbs23" {
 			return "termination of the PRBS retry loop is a numerical property of the generator (declined in DESIGN §3 C19)"
@@ -46,6 +49,9 @@ func checkC19(c *Ctx) {
 	r.Advisory("R3.count", "R6.parity")
 	// R6.matrix needs a function matrixLine(n, m); where it is gone the parity rule still decides the lines Encode uses
 	r.Advisory("R6.matrix", "R6.parity")
+	// R5 needs functions isPower2(int) and prbs23(int); where the generator is written differently the matrix it
+	// produces is still decided line by line (R6.matrix) and through the encoder (R6.parity)
+	r.Advisory("R5.helpers", "R6.matrix", "R6.parity")
 	r.Rule("R4.rows", "the row index selected by matrixLine is not provably >= 1 (or >= mm) nor provably <= m-2: every row stays selectable")
 	r.Explanation = "E3 obligations over fragmentation.Encode and callees; R2/R3 are def-use and linear-fact arguments on the SSA of Encode; the pure helpers isPower2 and prbs23 are decided for all inputs by the bit-level engine (R5); for a grid of fragment counts and sizes the whole encoder is interpreted on symbolic data and compared with an independent transcription of the parity matrix (R6); the encoder keeps no state (R7); recoverability (rank of the matrix) is declined"
 	guardsSelfTest(c, "R9.selftest")
